@@ -107,8 +107,9 @@ func (line *Line) coversSegment(seg Segment) bool {
 		if bestDist >= goal {
 			return true
 		}
-		if best == cur {
+		if !(bestDist > curDist) {
 			// nothing on the line continues along seg from here
+			// (also ends the walk when a coordinate is NaN)
 			return false
 		}
 		cur, curDist = best, bestDist
